@@ -221,6 +221,21 @@ fn random_grammar(rng: &mut Rng, name: &str) -> (String, Vec<&'static str>) {
             feats.push("alias-merged-node-type");
         }
     }
+    // a string literal, a named token rule and an alias target that SHARE A NAME (`"str"`, `str`,
+    // alias(number, $.str)): the public symbol map must keep the anonymous and the named kind apart
+    if rng.chance(1, 2) {
+        feats.push("literal-and-named-token-share-name");
+        rules.push(("str".into(), token(seq(vec![lit("\""), pat("[a-z]*"), lit("\"")]))));
+        let v = match rng.below(3) { 0 => sym("str"), 1 => choice(vec![sym("str"), alias(sym("number"), "str", true)]), _ => choice(vec![sym("str"), alias(sym("identifier"), "str", false)]) };
+        rules.push(("str_stmt".into(), seq(vec![lit("str"), field("v", v), lit(";")])));
+        items.push(sym("str_stmt"));
+        if rng.chance(1, 2) {
+            // the same for `num`: keyword "num" and named token `num`
+            rules.push(("num".into(), token(seq(vec![lit("0x"), pat("[0-9]+")]))));
+            rules.push(("num_stmt".into(), seq(vec![lit("num"), sym("num"), lit(";")])));
+            items.push(sym("num_stmt"));
+        }
+    }
     // a field on a hidden rule whose ONLY child is another hidden rule with repeated children:
     // the field's quantity has to travel through two hidden levels without any sibling token
     if rng.chance(1, 3) {
